@@ -237,3 +237,142 @@ func Conform(c *core.Check) {
 	c.Extra["traces_validated_against_impl"] = tot.RealRuns
 	c.Extra["pipe_model_conformance"] = map[string]any{"programs": tot.Programs, "model_executions": tot.ModelExecs, "model_outcomes": tot.ModelOutcomes, "real_io_pipe_runs": tot.RealRuns, "mismatches": len(tot.Mismatches), "skipped_capped": tot.Skipped, "samples": tot.Sample}
 }
+
+var cliOnce sync.Once
+var cliErr error
+var cliHarness string
+var cliInfo *overlay.Result
+
+// BuildCLI builds cmd/minify from the current tree as the task-concurrency harness (os → vos).
+func BuildCLI() (string, *overlay.Result, error) {
+	cliOnce.Do(func() {
+		dir := filepath.Join(core.Root, "build", "clioverlay")
+		os.RemoveAll(dir)
+		cliInfo, cliErr = overlay.GenerateCLI(core.Repo, core.Root, dir)
+		if cliErr != nil {
+			return
+		}
+		cliHarness = filepath.Join(core.Root, "bin", "clisched")
+		cmd := exec.Command("go", "build", "-overlay", cliInfo.OverlayFile, "-tags", "vsched", "-o", cliHarness, "./cmd/minify")
+		cmd.Dir = core.Repo
+		var out bytes.Buffer
+		cmd.Stdout, cmd.Stderr = &out, &out
+		if err := cmd.Run(); err != nil {
+			cliErr = fmt.Errorf("cli harness build failed: %v\n%s", err, out.String())
+		}
+	})
+	return cliHarness, cliInfo, cliErr
+}
+
+// ExploreCLI runs the task-concurrency and crash-point exploration of the command line tool
+// and folds the result into the check under the family name fam.
+func ExploreCLI(c *core.Check, fam string) *Result {
+	h, info, err := BuildCLI()
+	if err != nil {
+		fmt.Fprintln(os.Stderr, "BUILD-ERROR:", err)
+		os.Exit(2)
+	}
+	n := core.Workers()
+	out := make([]Result, n)
+	errs := make([]error, n)
+	var wg sync.WaitGroup
+	for i := 0; i < n; i++ {
+		wg.Add(1)
+		go func(i int) {
+			defer wg.Done()
+			cmd := exec.Command(h, c.Tier, fmt.Sprint(i), fmt.Sprint(n))
+			cmd.Env = append(os.Environ(), "GOMAXPROCS=2")
+			var so, se bytes.Buffer
+			cmd.Stdout, cmd.Stderr = &so, &se
+			if err := cmd.Run(); err != nil {
+				errs[i] = fmt.Errorf("shard %d: %v: %s", i, err, tail(se.String()))
+				return
+			}
+			payload := so.Bytes()
+			if k := bytes.LastIndex(payload, []byte("\nRESULT ")); k >= 0 {
+				payload = payload[k+8:]
+			}
+			if err := json.Unmarshal(payload, &out[i]); err != nil {
+				errs[i] = fmt.Errorf("shard %d: bad output: %v", i, err)
+			}
+		}(i)
+	}
+	wg.Wait()
+	for _, e := range errs {
+		if e != nil {
+			fmt.Fprintln(os.Stderr, "BUILD-ERROR:", e)
+			os.Exit(2)
+		}
+	}
+	tot := &Result{Extra: map[string]any{}}
+	ops := 0.0
+	for _, r := range out {
+		tot.Scenarios += r.Scenarios
+		tot.Nontrivial += r.Nontrivial
+		tot.Executions += r.Executions
+		tot.Complete += r.Complete
+		tot.Pruned += r.Pruned
+		tot.States += r.States
+		tot.Transitions += r.Transitions
+		tot.Deadlocks += r.Deadlocks
+		tot.Capped += r.Capped
+		tot.Outcomes += r.Outcomes
+		tot.MultiOutcome += r.MultiOutcome
+		tot.ReplayChecks += r.ReplayChecks
+		tot.Bound = r.Bound
+		if r.MaxTrace > tot.MaxTrace {
+			tot.MaxTrace = r.MaxTrace
+		}
+		tot.Failures = append(tot.Failures, r.Failures...)
+		if len(tot.Samples) < 3 {
+			tot.Samples = append(tot.Samples, r.Samples...)
+		}
+		if v, ok := r.Extra["hooked_fs_operations_executed"].(float64); ok {
+			ops += v
+		}
+	}
+	c.Count(uint64(tot.Executions))
+	c.AddFamily(fam, uint64(tot.Executions), uint64(tot.Complete))
+	c.Family(fam).Bound = fmt.Sprintf("%d scenarios (1, 2 and in thorough 3 concurrent tasks from 7 task kinds), preemption bound %d, every file system operation a scheduling point and every disk-changing one a crash point", tot.Scenarios, tot.Bound)
+	for _, s := range tot.Samples {
+		c.Sample(s)
+	}
+	seen := map[string]bool{}
+	for _, f := range tot.Failures {
+		if seen[f.Scenario] {
+			continue
+		}
+		seen[f.Scenario] = true
+		w := strings.Join(f.What, "; ")
+		kind := "final-tree"
+		switch {
+		case strings.Contains(w, "INTERNAL"):
+			kind = "internal-nondeterminism"
+		case strings.Contains(w, "deadlock"):
+			kind = "deadlock"
+		case strings.Contains(w, "panic"):
+			kind = "panic"
+		case strings.Contains(w, "a kill right before"):
+			kind = "crash-state"
+		}
+		c.Fail(core.Failure{Family: fam, Input: f.Scenario, Config: fmt.Sprintf("schedule=%v", f.Schedule), Kind: kind, What: w, Extra: map[string]any{"schedule": f.Schedule, "trace": f.Trace}})
+	}
+	if tot.Capped > 0 {
+		c.Exhaustive = false
+	}
+	c.Extra["cli_sched_states"] = tot.States
+	c.Extra["cli_sched_transitions"] = tot.Transitions
+	c.Extra["cli_sched_scenarios"] = tot.Scenarios
+	c.Extra["cli_sched_executions_complete"] = tot.Complete
+	c.Extra["cli_sched_executions_cut_at_visited_state"] = tot.Pruned
+	c.Extra["cli_sched_preemption_bound"] = tot.Bound
+	c.Extra["cli_sched_distinct_outcomes"] = tot.Outcomes
+	c.Extra["cli_sched_scenarios_with_several_outcomes"] = tot.MultiOutcome
+	c.Extra["cli_sched_replay_determinism_checks"] = tot.ReplayChecks
+	c.Extra["cli_sched_hooked_fs_operations_executed"] = int(ops)
+	c.Extra["cli_sched_rewritten_files"] = info.Rewritten
+	for i := 0; i < tot.Nontrivial; i++ {
+		c.Nontrivial(fam, fmt.Sprint(i))
+	}
+	return tot
+}
